@@ -9,8 +9,12 @@ WRITE_WITH = "rawdb::region::Region::write_with"
 COMPACT = "rawdb::Database::compact"
 PUNCH_HOLES = "rawdb::Database::punch_holes"
 
-FILE_SYNC = M(r"std::fs::File::sync_(data|all)", label="File::sync_data (data file)")
-REGIONS_SYNC = M(r"rawdb::regions::Regions::sync_data")
+def _not_regions_sync(body, b, t):
+    return not any(n.startswith("rawdb::regions::Regions::") for n in names(t))
+
+
+FILE_SYNC = M(r"std::fs::File::sync_(data|all)", reach=True, where=_not_regions_sync, label="File::sync_data (data file)")
+REGIONS_SYNC = M(r"rawdb::regions::Regions::sync_data", reach=True, label="Regions::sync_data")
 MARK_CLEAN = M(r"rawdb::region_metadata::RegionMetadata::mark_clean")
 PROMOTE = M(r"rawdb::layout::Layout::promote_pending_holes")
 INSERT_HOLE = M(r"rawdb::layout::Layout::insert_hole")
@@ -29,9 +33,11 @@ def fmt_sites(body, blocks):
 def rule_precedes(ctx, chk, rid, fn, a, b, what, floor_b=1):
     O = ctx.O
     body = O.body(fn)
-    O.need_sites(body, a, 1)
     bs = O.need_sites(body, b, floor_b)
-    bad = O.precedes(body, a, b)
+    # a site that is both A and B (e.g. one call running both, in unknown order) is not "preceded"
+    both = [x for x in bs if O.matches(body, x, a)]
+    bad = O.precedes(body, M(a.rx.pattern, reach=a.reach, label=a.label,
+                             where=lambda bd, blk, t: blk not in both and (a.where is None or a.where(bd, blk, t))), b)
     chk.oblige("%s precedes(%s: %s before %s) [%d site(s)]" % (rid, fn, a.label, b.label, len(bs)), not bad,
                detail={"rule": rid, "function": fn, "must_come_first": a.label, "before": b.label,
                        "unpreceded_sites": fmt_sites(body, bad), "all_sites": fmt_sites(body, bs)},
@@ -102,7 +108,7 @@ def run(ctx, chk):
     # B05.1 Database::flush
     fb = O.body(FLUSH)
     clean_sites = O.need_sites(fb, MARK_CLEAN, 1)
-    committing_sync = M(r"rawdb::regions::Regions::sync_data",
+    committing_sync = M(r"rawdb::regions::Regions::sync_data", reach=True,
                         where=lambda body, b, t: O.can_reach(body, b, clean_sites),
                         label="Regions::sync_data (on a path that marks dirty regions clean)")
     rule_precedes(ctx, chk, "B05.1a", FLUSH, FILE_SYNC, committing_sync,
@@ -137,6 +143,20 @@ def run(ctx, chk):
         ok = "rawdb::layout::Layout::insert_hole" not in r
         chk.oblige("B05.3c %s does not reach insert_hole (freed extent goes to pending_holes)" % f, ok,
                    key="B05.3c|reach|%s" % f, msg="a freed extent must not become reusable before the next flush")
+    # B05.7 pending holes count as occupied space for every placement decision, and are never allocatable
+    pend_readers = _field_readers(ctx, "rawdb::layout::Layout", "pending_holes")
+    for fn in ("rawdb::layout::Layout::len", "rawdb::layout::Layout::is_last_anything"):
+        O.body(fn)
+        chk.oblige("B05.7 %s consults pending_holes (freed-but-not-durable extents are still occupied)" % fn,
+                   fn in pend_readers, key="B05.7|reads|%s|pending_holes" % fn,
+                   msg="a placement decision must treat pending holes as occupied: their bytes may still be the durable "
+                       "copy of a region until the next flush")
+    for fn in ("rawdb::layout::Layout::find_smallest_adequate_hole", "rawdb::layout::Layout::get_hole",
+               "rawdb::layout::Layout::remove_or_compress_hole"):
+        O.body(fn)
+        chk.oblige("B05.7 %s never hands out a pending hole" % fn, fn not in pend_readers,
+                   key="B05.7|no-read|%s|pending_holes" % fn,
+                   msg="pending holes must not be allocatable before promote_pending_holes")
     # B05.4 dirty tracking
     ww = O.body(WRITE_WITH)
     ws = O.need_sites(ww, DB_WRITE, 5)
@@ -205,4 +225,41 @@ def _source_types(body, op, depth=0, seen=None):
                 out |= _source_types(body, o, depth + 1, seen)
             if "place" in rv:
                 out |= _source_types(body, {"c": rv["place"]}, depth + 1, seen)
+    return out
+
+
+def _field_readers(ctx, adt, field):
+    """bodies that project `field` of a place whose base type is `adt` (directly or through callees of the same impl)."""
+    P, O = ctx.P, ctx.O
+    direct = set()
+    for bid, body in P.bodies.items():
+        if body.krate != "rawdb":
+            continue
+        for b in body.reachable():
+            blk = body.blocks[b]
+            places = []
+            for st in blk["stmts"]:
+                if st[0] == "assign":
+                    places.append(st[1])
+                    rv = st[2]
+                    if "place" in rv:
+                        places.append(rv["place"])
+                    for o in rv.get("ops", []):
+                        pl = op_place(o)
+                        if pl:
+                            places.append(pl)
+            t = blk["term"]
+            for o in t.get("args", []):
+                pl = op_place(o)
+                if pl:
+                    places.append(pl)
+            for pl in places:
+                if any(isinstance(e, list) and e[0] == "f" and e[2] == field for e in pl["p"]) and \
+                        adt in body.locals[pl["l"]]["ty"]:
+                    direct.add(bid)
+    out = set(direct)
+    for bid in P.bodies:
+        if bid.startswith(adt + "::") and bid not in out:
+            if any(r in direct and r.startswith(adt + "::") for r in O.reach(bid)):
+                out.add(bid)
     return out
